@@ -693,9 +693,9 @@ pub fn main(a: &Args) {
                     }
                 }
                 let _ = write!(cases, "({}, ({}, {}, EL [", idx, c15::render_case(&c.base, &mut it), render_feat(&c.feat, &mut it));
-                // load outcome and class flags (the direct save of C15 is not part of this run)
+                // the load outcome (the direct save of C15 is not part of this run)
                 let e3 = match e {
-                    O::L(v) if v.len() == 4 => O::L(vec![v[0].clone(), v[2].clone(), v[3].clone()]),
+                    O::L(v) if v.len() == 2 => v[0].clone(),
                     other => other.clone(),
                 };
                 e3.render(&mut cases, &mut it);
